@@ -1,9 +1,193 @@
-//! STUB component for slit -- to be written
+//! component 14: SLIT.  Case vocabulary documented in coq/theories/Spec/SlitS.v.
 use crate::sx::*;
+use crate::tcommon::*;
 use crate::Emit;
+use acpi_tables::slit::*;
 
-pub fn run(_case: &Sx, _out: &mut Vec<Ev>) {
-    panic!("harness: component slit not implemented")
+pub fn run(case: &Sx, out: &mut Vec<Ev>) {
+    let c = case.list();
+    let ctor = c[0].list();
+    let (oem, tbl, rev) = hdr_args(ctor);
+    let mut t = SLIT::new(oem, tbl, rev, ctor[3].num() as u32);
+    for op in &c[1..] {
+        if let Sx::A(_) = op {
+            out.push(image(&t));
+            continue;
+        }
+        let o = op.list();
+        match o[0].num() {
+            1 => t.set_distance(o[1].num() as usize, o[2].num() as usize, o[3].num() as u8),
+            _ => panic!("harness: bad slit op"),
+        }
+        out.push(Ev::Num(0));
+    }
 }
 
-pub fn gen(_tier: &str, _rng: &mut Rng, _emit: &mut Emit) {}
+fn rand_ctor(rng: &mut Rng, localities: u64) -> Sx {
+    let mut c = rand_hdr(rng);
+    c.push(a(localities));
+    l(c)
+}
+
+fn set(ia: u64, ib: u64, v: u64) -> Sx {
+    l(vec![a(1), a(ia), a(ib), a(v)])
+}
+
+/// all sequences of length <= n over the items
+fn sequences(items: &[u64], n: usize) -> Vec<Vec<u64>> {
+    let mut res: Vec<Vec<u64>> = vec![vec![]];
+    let mut last: Vec<Vec<u64>> = vec![vec![]];
+    for _ in 0..n {
+        let mut next = Vec::new();
+        for s in &last {
+            for it in items {
+                let mut t = s.clone();
+                t.push(*it);
+                next.push(t);
+            }
+        }
+        res.extend(next.iter().cloned());
+        last = next;
+    }
+    res
+}
+
+fn shuffle<T>(rng: &mut Rng, v: &mut Vec<T>) {
+    for k in (1..v.len()).rev() {
+        let j = rng.below(k as u64 + 1) as usize;
+        v.swap(k, j);
+    }
+}
+
+pub fn gen(tier: &str, rng: &mut Rng, emit: &mut Emit) {
+    let thorough = tier == "thorough";
+    // empty histories for 0..6 localities and a few larger shapes
+    for n in (0..=6u64).chain([7, 16, 40, 100, 255, 256]) {
+        let c = rand_ctor(rng, n);
+        emit.case(14, history(rng, c, vec![]));
+    }
+    // exhaustive short assignment sequences over all cells (diagonal and mirrored writes included)
+    for n in 1..=6u64 {
+        let cells: Vec<u64> = (0..n * n).collect();
+        let depth = match n {
+            1 => 4,
+            2 => 3,
+            3 => 2,
+            _ => 1,
+        };
+        for seq in sequences(&cells, depth) {
+            let c = rand_ctor(rng, n);
+            let ops = seq.iter().map(|k| set(k / n, k % n, rng.val(8))).collect();
+            emit.case(14, history(rng, c, ops));
+        }
+        // every cell followed by its mirror image and by a write to a neighbour
+        for k in 0..n * n {
+            let (ia, ib) = (k / n, k % n);
+            let c = rand_ctor(rng, n);
+            let ops = vec![set(ia, ib, rng.val(8)), set(ib, ia, rng.val(8)), set(ia, (ib + 1) % n, rng.val(8)), set(ia, ib, rng.val(8))];
+            emit.case(14, history(rng, c, ops));
+        }
+        // every cell assigned once in random order, with repeats mixed in
+        for rep in 0..3u64 {
+            let c = rand_ctor(rng, n);
+            let mut ks: Vec<u64> = cells.clone();
+            for _ in 0..rep * n {
+                ks.push(rng.below(n * n));
+            }
+            shuffle(rng, &mut ks);
+            let ops = ks.iter().map(|k| set(k / n, k % n, rng.val(8))).collect();
+            emit.case(14, history(rng, c, ops));
+        }
+    }
+    // the whole value range on one cell and on the diagonal
+    {
+        let c = rand_ctor(rng, 3);
+        let ops = (0..256u64).map(|v| if v % 2 == 0 { set(0, 2, v) } else { set(1, 1, v) }).collect();
+        emit.case(14, history(rng, c, ops));
+    }
+    // random sequences on shapes up to 40
+    let nrand = if thorough { 3000 } else { 200 };
+    for _ in 0..nrand {
+        let n = match rng.below(3) {
+            0 => rng.range(1, 6),
+            1 => rng.range(1, 16),
+            _ => rng.range(7, 40),
+        };
+        let c = rand_ctor(rng, n);
+        let len = match rng.below(3) {
+            0 => rng.range(1, 6),
+            1 => rng.range(1, 24),
+            _ => rng.range(25, 120),
+        };
+        let ops = (0..len)
+            .map(|_| {
+                let (ia, ib) = if rng.chance(1, 6) {
+                    let d = rng.below(n);
+                    (d, d)
+                } else {
+                    (rng.below(n), rng.below(n))
+                };
+                set(ia, ib, rng.val(8))
+            })
+            .collect();
+        emit.case(14, history(rng, c, ops));
+    }
+    // long runs (300 operations) and tables around 65536 bytes
+    for n in [2u64, 9, 40] {
+        let c = rand_ctor(rng, n);
+        let ops = (0..300).map(|_| set(rng.below(n), rng.below(n), rng.val(8))).collect();
+        emit.case(14, history(rng, c, ops));
+    }
+    for n in [255u64, 256, 257] {
+        let c = rand_ctor(rng, n);
+        let ops = vec![set(0, n - 1, rng.val(8)), set(n - 1, n - 1, rng.val(8)), set(n / 2, 3, rng.val(8)), set(n - 1, 0, rng.val(8))];
+        emit.case(14, history(rng, c, ops));
+    }
+    // out-of-range indices: on the boundary, far beyond, and products that wrap a 64-bit usize
+    for n in [0u64, 1, 2, 3, 4, 7] {
+        let mut bad = vec![(n, 0), (0, n), (n, n), (n + 1, 0), (0, u64::MAX), (u64::MAX, 0), (u64::MAX, u64::MAX), (1, u64::MAX), (u64::MAX, 1), (1 << 63, 0), (0, 1 << 63), (1 << 62, 1 << 62), (1 << 63, 1 << 63), (1 << 32, 1)];
+        if n > 0 {
+            bad.push((n - 1, n));
+            bad.push((n, n - 1));
+            // a * (n + 1) = 2^64 when n + 1 is a power of two
+            if (n + 1).is_power_of_two() && n > 0 {
+                let d = (1u128 << 64) / (n as u128 + 1);
+                bad.push((d as u64, d as u64));
+            }
+        }
+        for (ia, ib) in bad {
+            let c = rand_ctor(rng, n);
+            let mut ops: Vec<Sx> = Vec::new();
+            if n > 0 {
+                ops.push(set(rng.below(n), rng.below(n), rng.val(8)));
+            }
+            ops.push(set(ia, ib, rng.val(8)));
+            emit.case(14, history(rng, c, ops));
+        }
+    }
+}
+
+/// C18: localities^2 + 44 must fit the u32 Length.  Images are observed only when the matrix the crate would
+/// build (even after a wrapped product) stays below 2^24 bytes.
+#[allow(dead_code)]
+pub fn gen18(tier: &str, rng: &mut Rng, emit: &mut Emit) {
+    // the model's matrix is a list: keep the observed in-range case small in the quick tier
+    let observed = if tier == "thorough" { 1000u64 } else { 200 };
+    for n in [observed, 65_535, 65_536, 65_537, 70_000, 1 << 31, u32::MAX as u64] {
+        let ctor = rand_ctor(rng, n);
+        let wrapped = (n * n) & 0xFFFF_FFFF;
+        let mut v = vec![ctor];
+        if wrapped < (1 << 24) {
+            v.push(a(1));
+            if n * n < (1 << 24) {
+                v.push(set(n - 1, 0, rng.val(8)));
+                v.push(set(n / 2, n / 2, rng.val(8)));
+                v.push(a(1));
+            }
+        } else if n > 65_535 {
+            // must be refused by the constructor: a cheap operation instead of an observation
+            v.push(set(0, 0, 10));
+        }
+        emit.case(14, l(v));
+    }
+}
